@@ -12,9 +12,11 @@ UNITS = {
     'langid_match': {'crate': 'unic-langid-impl', 'file': 'contracts/kani/langid_match.rs', 'mod': 'verif_langid_match',
                      'features': [], 'preds': True},
     'langid_tables': {'crate': 'unic-langid-impl', 'file': 'contracts/kani/langid_tables.rs', 'mod': 'verif_langid_tables',
-                      'features': ['likelysubtags'], 'preds': True, 'gen': 'likely'},
+                      'features': ['likelysubtags'], 'preds': True, 'gen': 'likely', 'host': 'src/likelysubtags/mod.rs',
+                      'modfile': 'src/likelysubtags/verif_langid_tables.rs'},
     'langid_likely': {'crate': 'unic-langid-impl', 'file': 'contracts/kani/langid_likely.rs', 'mod': 'verif_langid_likely',
-                      'features': ['likelysubtags'], 'preds': True},
+                      'features': ['likelysubtags'], 'preds': True, 'host': 'src/likelysubtags/mod.rs',
+                      'modfile': 'src/likelysubtags/verif_langid_likely.rs'},
     'langid_dir': {'crate': 'unic-langid-impl', 'file': 'contracts/kani/langid_dir.rs', 'mod': 'verif_langid_dir',
                    'features': [], 'preds': True, 'gen': 'layout'},
     'langid_dir_likely': {'crate': 'unic-langid-impl', 'file': 'contracts/kani/langid_dir.rs', 'mod': 'verif_langid_dir',
